@@ -275,3 +275,16 @@ reg(Check("C15", "model_checking",
           parts=[Part("call", SRV, "^TestVerifC15Call$", instr=True, gomaxprocs=16, deadline=(300, 2400)),
                  Part("call-off", SRV, "^TestVerifC15CallOff$", instr=True, gomaxprocs=16, deadline=(120, 600)),
                  Part("call-fault", SRV, "^TestVerifC15Fault$", instr=True, gomaxprocs=16, deadline=(300, 2400))]))
+
+reg(Check("C16", "model_checking",
+          "request shapes: method x API key {none,valid,forged} in {header,query,form,cookie} x credentials {none,token,basic,bad,live sid,dead sid} in the same "
+          "placements x body size {limit-1,limit,limit+1} x content kind {png,html,xml,text,binary} x URL shapes {canonical,with extension,relative,other dir,"
+          "traversal,%2F,trailing junk,unfinished/failed upload}; histories: BFS over {upload, publish with attachment list, set topic/user avatar, hard-delete message, "
+          "delete topic, garbage collection with cut-off before/after} against a reference model (linked or young => kept)",
+          ["real media/fs handler on a scratch directory, memdb for file records and links", "canonical schedule"],
+          text=XS_NOTE + "; plus exhaustive enumeration of HTTP request shapes through the real handlers",
+          note="trusted: memdb store contract (FileDeleteUnused / FileLinkAttachments semantics transcribed from MySQL)",
+          technique="explicit-state model checking over the real handlers + exhaustive request-shape enumeration",
+          engine="E2 xstate + E4 enum", claimed=False,
+          parts=[Part("requests", SRV, "^TestVerifC16Requests$", instr=True, shards=(16, 16), deadline=(300, 2400)),
+                 Part("files", SRV, "^TestVerifC16Files$", instr=True, gomaxprocs=16, deadline=(300, 2400))]))
